@@ -354,7 +354,9 @@ def gen_history(rng, tier):
         last = j == k - 1
         if faulty_hist and not last and rng.random() < 0.6:
             sites = sorted(rng.sample(READ_SITES + WRITE_SITES, rng.randrange(1, 6)))
-            op['rate'] = {'p': rng.choice([0.02, 0.05, 0.15, 0.4]), 'seed': rng.randrange(1 << 30), 'sites': sites, 'actions': ['errno', 'short']}
+            # (no ENOENT for files that exist: to a reader that is the absence of the file, and the absence of an .index is
+            # legitimately remembered for the life of the reader - like the content of an archive)
+            op['rate'] = {'p': rng.choice([0.02, 0.05, 0.15, 0.4]), 'seed': rng.randrange(1 << 30), 'sites': sites, 'actions': ['errno', 'short'], 'not_args': ['ENOENT']}
         ops.append(op)
     if faulty_hist and rng.random() < 0.7:
         ops[-1]['options']['rebuild'] = True
